@@ -60,5 +60,14 @@ CLAIMED.update({
              "the executable oracle is proved sound and complete for the model output",
              note=_N + "Go int as unbounded integers, strings.Builder as concatenation, bytes not runes.", technique="Lean 4 proof + correspondence incl. precondition violations"),
 })
+ 
+CLAIMED.update({
+ "C01": dict(text=_T % "C01" + "lift_correct: for every entry of the REGENERATED tables (RV32/RV64, every subset of M and A), every matching word, every machine state and every valuation representing it, "
+             "the reference interpreter executes the instruction and applying the lifted effects (evaluated in the pre-state, applied in order, IP write = jump else fall through) yields a valuation representing "
+             "the reference post-state with the same next IP; x0 never written / reads zero; one register per 12-bit CSR number. Scope: accesses wrapping the variant's address space excluded (noWrap)",
+             note=_N + "Tables regenerated from /repo (runtime dump + go/ast translation); helper functions of opcodes.go hand-modelled, tied by structural correspondence per entry; the RISC-V reference "
+             "(Spec/Riscv.lean) is my transcription of the ISA manual — no independent RISC-V execution oracle exists offline.",
+             technique="Lean 4 proof per table entry over regenerated tables (gadget lemmas of C11) + structural correspondence + reference-machine oracle"),
+})
 
 NOT_YET = {}
